@@ -146,6 +146,8 @@ Proof.
   destruct s as [|t rest]; [inversion D; subst; exact H|].
   destruct (0 <? t_numparams t); [inversion D; subst; exact H|].
   destruct (t_disable_params t); [inversion D; subst; exact H|].
+  destruct (existsb _ (p :: ps)); [inversion D; subst; exact H|].
+  destruct (0 <? t_numdef t); [inversion D; subst; exact H|].
   eapply set_params_go_slots; [|exact D].
   destruct H as [Ht Hr]. cbn [slots_ok]. split; [|exact Hr].
   replace (base_of rest (set_numparams t _)) with (base_of rest t) by reflexivity.
